@@ -2,8 +2,18 @@
 C02 — zero-copy sample lifetime: no reuse while referenced, no leak after.
 Theorems about the L1 publish-subscribe model `Iox2.PubSub` (every API call atomic), for every
 reachable state: every configuration the service builder accepts, every history of API calls.
+
+All theorems are proved as stated.  They are consequences of one global inductive invariant
+`Iox2.PubSub.C02P.Inv {} {} w` (definition: `Iox2/Proof/PubSubC02Defs.lean`; preservation by every
+API operation: `Iox2/Proof/PubSubC02StepSub.lean`, `Iox2/Proof/PubSubC02StepPub.lean`
+(`step_inv`, `reach_inv`); consequences: `Iox2/Proof/PubSubC02Final.lean`,
+`Iox2/Proof/PubSubC02Loan.lean`; concrete histories: `Iox2/Proof/PubSubC02Examples.lean`).
+The hypothesis `cfg.Sane` is not needed by any of the proofs.
 -/
 import Iox2.Model.PubSub
+import Iox2.Proof.PubSubC02StepPub
+import Iox2.Proof.PubSubC02Loan
+import Iox2.Proof.PubSubC02Examples
 namespace Iox2.PubSub.C02
 open Iox2.PubSub
 
@@ -37,34 +47,49 @@ hands out the head of `free` (see `step`), so a chunk that is referenced is neve
 theorem free_not_referenced (cfg : Cfg) (hc : cfg.Sane) (w : World) (h : Reach cfg w)
     (p : Nat) (P : Pub) (hp : PubEx w p P) (c : Nat) (hf : c ∈ P.free) :
     ¬ Referenced w p P c := by
-  sorry
+  have hi := C02P.reach_inv h
+  obtain ⟨r1, r2, r3, r4⟩ := C02P.final_free_not_referenced hi hp.1 hp.2 hf
+  rintro (⟨l, hl⟩ | hh | ⟨s, cn, ⟨S, hS, ha⟩, hC, hcs⟩ | ⟨s, S, hd, hS, ha, hh, hpid, hch⟩)
+  · exact r1 l hl
+  · exact r2 hh
+  · exact r3 s S cn hS ha hC hcs
+  · exact r4 s S hd hS ha hh hpid hch
 
 /-- … in particular the chunk a successful `loan` returns was unreferenced before the call. -/
 theorem loan_returns_unreferenced (cfg : Cfg) (hc : cfg.Sane) (w : World) (h : Reach cfg w)
     (hnp : w.panicked = false) (p l : Nat) (hok : (step w (.loan p l)).2 = "ok") :
     ∃ P' c, getP (step w (.loan p l)).1 p = some P' ∧ (l, c) ∈ P'.loans ∧
       ∀ P, getP w p = some P → ¬ Referenced w p P c := by
-  sorry
+  have hi := C02P.reach_inv h
+  obtain ⟨P', c, h1, h2, h3⟩ := C02P.loan_unreferenced hi hok
+  refine ⟨P', c, h1, h2, ?_⟩
+  intro P hP
+  obtain ⟨r1, r2, r3, r4⟩ := h3 P hP
+  rintro (⟨l, hl⟩ | hh | ⟨s, cn, ⟨S, hS, ha⟩, hC, hcs⟩ | ⟨s, S, hd, hS, ha, hh, hpid, hch⟩)
+  · exact r1 l hl
+  · exact r2 hh
+  · exact r3 s S cn hS ha hC hcs
+  · exact r4 s S hd hS ha hh hpid hch
 
 /-- The bytes seen through a held sample never change: for a live subscriber the memory of the
 chunk still holds the value that was read when the sample was received. -/
 theorem held_sample_stable (cfg : Cfg) (hc : cfg.Sane) (w : World) (h : Reach cfg w)
     (s : Nat) (S : Sub) (hs : getS w s = some S) (hl : S.alive = true) (hd : Held) (hh : hd ∈ S.held) :
-    ∃ P, getP w hd.pid = some P ∧ P.payload.getD hd.chunk 0 = hd.tag := by
-  sorry
+    ∃ P, getP w hd.pid = some P ∧ P.payload.getD hd.chunk 0 = hd.tag :=
+  C02P.final_held_stable (C02P.reach_inv h) hs hl hh
 
 /-- The reference counter is exact (conservation law): it equals the number of loans, history
 entries and connections (of the publisher's current connection array) that hold the chunk. -/
 theorem refcount_exact (cfg : Cfg) (hc : cfg.Sane) (w : World) (h : Reach cfg w)
     (p : Nat) (P : Pub) (hp : PubEx w p P) (c : Nat) (hlt : c < P.n) :
-    P.rc.getD c 0 = refCount w p P c := by
-  sorry
+    P.rc.getD c 0 = refCount w p P c :=
+  C02P.final_refcount (C02P.reach_inv h) hp.1 hp.2 hlt
 
 /-- No leak: a chunk is loanable exactly when its counter is zero; the free list has no duplicates. -/
 theorem free_iff_unreferenced (cfg : Cfg) (hc : cfg.Sane) (w : World) (h : Reach cfg w)
     (p : Nat) (P : Pub) (hp : PubEx w p P) :
-    P.free.Nodup ∧ P.rc.length = P.n ∧ ∀ c, c ∈ P.free ↔ (c < P.n ∧ P.rc.getD c 0 = 0) := by
-  sorry
+    P.free.Nodup ∧ P.rc.length = P.n ∧ ∀ c, c ∈ P.free ↔ (c < P.n ∧ P.rc.getD c 0 = 0) :=
+  C02P.final_free (C02P.reach_inv h) hp.1 hp.2
 
 /-- What a connection still owns is exactly what is in flight on it: the used chunk list of a
 connection the publisher is attached to has one bit per entry of the submission queue, per sample
@@ -73,8 +98,8 @@ theorem used_is_in_flight (cfg : Cfg) (hc : cfg.Sane) (w : World) (h : Reach cfg
     (cn : Conn) (hcn : cn ∈ w.conns) (hs : cn.sAtt = true) :
     (cn.used.filter id).length = cn.sub.length + cn.borrow + cn.comp.length ∧
     (cn.sub.map (·.1) ++ cn.comp).Nodup ∧
-    ∀ c ∈ cn.sub.map (·.1) ++ cn.comp, cn.used.getD c false = true := by
-  sorry
+    ∀ c ∈ cn.sub.map (·.1) ++ cn.comp, cn.used.getD c false = true :=
+  C02P.final_in_flight (C02P.reach_inv h) hcn hs
 
 /-- FALSE for samples whose subscriber port was dropped (finding D16): `held_sample_stable`
 without `S.alive`.  Prove the refutation with a concrete history. -/
@@ -83,14 +108,15 @@ theorem held_sample_of_dropped_subscriber_changes :
       let w := run (World.init cfg) ops
       w.panicked = false ∧
       ∃ s S hd P, getS w s = some S ∧ hd ∈ S.held ∧ getP w hd.pid = some P ∧
-        P.payload.getD hd.chunk 0 ≠ hd.tag := by
-  sorry
+        P.payload.getD hd.chunk 0 ≠ hd.tag :=
+  C02P.dropped_subscriber_sample_changes
 
 /-- non-vacuity: a reachable state with a live subscriber holding a sample, a loan, a non-empty
 history and a non-empty buffer -/
 example : ∃ (cfg : Cfg) (w : World), cfg.Sane ∧ Reach cfg w ∧ w.panicked = false ∧
     ∃ s S P, getS w s = some S ∧ S.alive = true ∧ S.held ≠ [] ∧ getP w 0 = some P ∧ P.ex = true ∧
-      P.loans ≠ [] ∧ P.hist ≠ [] ∧ ∃ cn, getC w 0 s = some cn ∧ cn.sub ≠ [] := by
-  sorry
+      P.loans ≠ [] ∧ P.hist ≠ [] ∧ ∃ cn, getC w 0 s = some cn ∧ cn.sub ≠ [] :=
+  C02P.nonvacuous
 
 end Iox2.PubSub.C02
+
